@@ -214,7 +214,16 @@ func matchRunTable(st *matchState, t matchTable) {
 				}()
 				tag := fmt.Sprintf("r%d", i+1)
 				idx := i + 1
-				b.routes = append(b.routes, b.r.AddNamed(tag, st.hdr.Pool[e.P-1], func(c *rux.Context) {
+				// (one of the caching routers gets ALL its routes as route objects attached with AttachTo)
+				add := func(h rux.HandlerFunc) *rux.Route {
+					if name == "cache1" || name == "served-cache" {
+						rt := rux.NewNamedRoute(tag, st.hdr.Pool[e.P-1], h, e.Ms...)
+						rt.AttachTo(b.r)
+						return rt
+					}
+					return b.r.AddNamed(tag, st.hdr.Pool[e.P-1], h, e.Ms...)
+				}
+				b.routes = append(b.routes, add(func(c *rux.Context) {
 					if tp := c.Req.Header.Get("X-Redisp-Path"); tp != "" {
 						// internal redirect: rewrite the request and dispatch it again on the same context
 						c.Req.Header.Del("X-Redisp-Path")
@@ -228,7 +237,7 @@ func matchRunTable(st *matchState, t matchTable) {
 					for k, v := range c.Params {
 						b.seenParams[k] = v
 					}
-				}, e.Ms...))
+				}))
 			}()
 		}
 		return b
